@@ -90,6 +90,8 @@ func maxOf(w int) uint64 {
 }
 
 func Run(c *hx.Ctx) {
+	// hx seeds are affine in VERIF_SEED (seed k+1 replays seed k shifted by one draw): decorrelate them here
+	c.Rng = c.Rng.Fork()
 	log.DefaultLogger.SetLogLevel(log.FATAL)
 	log.Proxy.SetLogLevel(log.FATAL)
 	seen := map[string]bool{}
